@@ -672,6 +672,38 @@ fn renumberings(t: &Tab, rng: &mut Rng, k: usize) -> Vec<Tab> {
     (0..k).map(|_| t.renumbered(&random_perm1(rng, t.size))).collect()
 }
 
+/// a finer cell decomposition of the same manifold: faces (or, through the dual, edge figures)
+/// are cut by new edges with the `cut_face` hook; every step is kept only if the result is again
+/// inside the domain (tables checked here, independently)
+fn subdivide(t: &Tab, rng: &mut Rng, steps: usize) -> Option<Tab> {
+    let mut cur = t.clone();
+    let mut done = 0;
+    for _ in 0..(4 * steps) {
+        if done == steps {
+            break;
+        }
+        let dualize = rng.chance(1, 2);
+        let base = if dualize { cur.dual() } else { cur.clone() };
+        let ds = tab_to_ds(&base);
+        let d1 = 1 + rng.below(base.size);
+        let len = base.r(0, 1, d1);
+        let mut d2 = base.op[0][d1];
+        for _ in 0..rng.below(len) {
+            d2 = base.op[0][base.op[1][d2]];
+        }
+        let Some(res) = pre(|| hk::cut_face(&ds, d1, d2)) else { continue };
+        let mut rt = Tab::from_dset(&res);
+        if dualize {
+            rt = rt.dual();
+        }
+        if in_domain(&rt) && rt.is_connected() == cur.is_connected() {
+            cur = rt;
+            done += 1;
+        }
+    }
+    if done > 0 { Some(cur) } else { None }
+}
+
 /// all cases of one manifold input
 fn input_cases(out: &mut Vec<Pending>, src: &str, hyp: usize, cov: &Tab, rng: &mut Rng, nren: usize, do_replay: bool, full_limit: usize, max_steps: usize) {
     if !in_domain(cov) {
@@ -684,6 +716,20 @@ fn input_cases(out: &mut Vec<Pending>, src: &str, hyp: usize, cov: &Tab, rng: &m
     }
     if do_replay {
         replay(out, src, &tab_to_ds(cov), rng, full_limit, max_steps);
+        // the same manifold with a finer decomposition (outside the quantifier of the property
+        // unless the group is finite: only the manifold clauses are asked of it; the point is to
+        // drive the rewriting primitives along their other paths for the model comparison)
+        for _ in 0..2 {
+            let steps = 1 + rng.below(4);
+            if let Some(sub) = subdivide(cov, rng, steps) {
+                if sub.size <= 400 {
+                    let h = if hyp == 1 { 1 } else { 0 };
+                    let tag = format!("{}-subdivided", src);
+                    case_simplify(out, &tag, h, &sub);
+                    replay(out, &tag, &tab_to_ds(&sub), rng, full_limit, max_steps);
+                }
+            }
+        }
     }
 }
 
